@@ -358,8 +358,8 @@ def setClocks (s : State) (h f : Nat) : State := { s with halfmove := h, fullmov
 
 /-- what `by_performing_move` does to the clocks of the successor -/
 def reclock (mv : Move) (turn : Color) (h f : Nat) (n : State) : State :=
-  setClocks n (if Move.isCapture mv || Move.piece mv == .pawn then 0 else h + 1)
-    (if turn == .black then f + 1 else f)
+  setClocks n (if Move.isCapture mv || Move.piece mv == .pawn then 0 else clockSucc h)
+    (if turn == .black then clockSucc f else f)
 
 theorem pseudoLegalMoves_setClocks (s : State) (h f : Nat) :
     pseudoLegalMoves (setClocks s h f) = pseudoLegalMoves s := rfl
